@@ -5,3 +5,34 @@ returns None and is therefore reported as a new violation."""
 
 def classify_moment_violation(case, violation, recs, program):
     return None
+
+
+def classify_stage_violation(case, violation, stage, stages):
+    return None
+
+
+def uninitialised_source_vars(case):
+    """source variables without an assignment in the init block"""
+    from .lang.ast import Program, program_variables, assigned_vars
+    prog = Program.from_json(case["ast"])
+    init_assigned = set(assigned_vars(prog.init))
+    declared = {v for v, _, _ in prog.typedefs}
+    return [v for v in program_variables(prog) if v not in init_assigned]
+
+
+K_UNINIT = "uninitialised-variable-initial-value-missing-from-type"
+
+
+def classify_type_violation(case, violation, stage, inits):
+    """K_UNINIT: every offending value is the (symbolic) initial value of a source variable that has no
+    initial assignment - Polar's typer deliberately ignores it when the first assignment is under the loop guard"""
+    un = uninitialised_source_vars(case)
+    standins = {str(inits[v]) for v in un if v in inits}
+    bad = set(violation.get("bad_values", []))
+    if bad and bad <= standins:
+        return K_UNINIT
+    return None
+
+
+def classify_recurrence_violation(case, violation, recs, program, stage, inits):
+    return None
